@@ -75,10 +75,7 @@ def itemSpec (pre : List Int) (prevIds : List (List Int)) : Nat → Arg → Opti
     some ⟨id, rule, args, prevs, th, sub⟩
   | _, _ => none
 
-def lookup (thms : List (String × Seq)) (name : String) : Option Seq :=
-  match thms.reverse.find? (fun p => p.1 == name) with
-  | some p => some p.2
-  | none => none
+def lookup (thms : List (String × Seq)) (name : String) : Option Seq := lookupThm thms name
 
 def kind (rule : String) : Kind :=
   if rule = "assume" || rule = "implies_elim" then .prim
